@@ -30,6 +30,9 @@ class CaseRun(object):
         mm.TRUTH.clear()
         mm.TRUTH.update(desc['truth'])
         m = mc.build(desc)
+        # the twin: same description on the plain markup class, same state-changing modifications, but nobody ever
+        # reads its markup or renders a diagram from it
+        twin = mc.build(dict(desc, graph=False))
         exp = mc.Expect(desc)
         mk = json.loads(json.dumps(m.markup))
         self._faithful(exp, mk, m, 'constructed')
@@ -39,6 +42,10 @@ class CaseRun(object):
                 continue
             before = mk
             m = mc.apply_mod(m, mod)
+            if mod[0] != 'observe':
+                # (restores are applied to the twin as well: copy.deepcopy of a hierarchical machine separates
+                # callback lists that transitions shared, which is core behaviour and changes later registrations)
+                twin = mc.apply_mod(twin, mod)
             exp.apply(mod)
             mk = json.loads(json.dumps(m.markup))
             stage = 'after modification %d: %s' % (i, ' '.join(str(x) for x in mod[:2]) if mod[0] in ('observe', 'clone') else mod[0])
@@ -54,7 +61,7 @@ class CaseRun(object):
         wst, wtr = mc.whitelist_codes()
         self.request = ('c14', [len(wst)] + wst + [len(wtr)] + wtr + codec.cfg(m))
         self.enc['markup'] = codec.markup(mk)
-        fs, info = mc.check_roundtrip(exp, m, mk, desc['history'], codec=codec)
+        fs, info = mc.check_roundtrip(exp, m, mk, desc['history'], codec=codec, twin=twin)
         m2 = info.pop('m2', None)
         if m2 is not None and 'pre' in info:
             self.enc['cfg2'], self.enc['markup2'] = info.pop('pre')
@@ -322,7 +329,9 @@ class C14(runner.Check):
             'plain ones)/add_transition/remove_transition/dynamic callback '
             'registration/model moves/read-only observers (diagram rendering incl. region of interest, get_transitions, '
             'may_trigger, markup reads)/pickle and deepcopy restores) x histories of 6-14 triggers; a case is non-trivial when a state slot and a '
-            'transition slot hold callbacks and the history executes at least one transition; distinct = different '
+            'transition slot hold callbacks and the history executes at least one transition; every history is run on '
+            'three machines: a twin nobody ever exported/observed, the original after all exports, the rebuilt one; '
+            'user triggers named like automatic ones (to_<state>) when auto_transitions is off; distinct = different '
             'description')
     trusted = ('hand-written model lean/Model/Markup.lean tied to /repo by equality of the encoded markup '
                '(export), of the rebuilt object state (import) and of the re-exported markup on every generated case',
@@ -351,7 +360,7 @@ class C14(runner.Check):
         technique="Lean 4 proof (mutual structural induction over the state tree, dict-regrouping lemma, dirty-flag "
                   "invariant) + differential correspondence + Python property oracle + behavioural differential")
 
-    streams = (('mixed', (16, 360), (64, 800)), ('clean', (16, 160), (32, 600)))
+    streams = (('mixed', (16, 260), (64, 800)), ('clean', (16, 110), (32, 600)))
 
     def explore(self, tier, seed):
         # whitelist hypotheses of C14_faithful_state / C14_faithful_transition_fields / C14_roundtrip_markup
@@ -457,8 +466,10 @@ class C14(runner.Check):
                 'captured by the constructor (assigning machine.before_state_change later is not reflected and is not '
                 'judged); auto_transitions_markup stays False; every machine has an initial state (initial=None '
                 're-imports with the default state "initial")',
-                'trigger names starting with to_ are reserved for automatic transitions (the _is_auto_transition '
-                'heuristic would omit a user-defined look-alike); no state is named after model_attribute',
+                'with auto_transitions on, trigger names of the form to_<state> are reserved for the automatic '
+                'transitions; with auto_transitions off, user triggers named like automatic ones are generated but '
+                'never with one source per state (the _is_auto_transition heuristic would then omit them); no state '
+                'is named after model_attribute',
                 'remove_transition is exercised on triggers that exist at machine level; model states are reached '
                 'by triggers or add_model(initial=...), i.e. are resolved configurations',
                 'behavioural equality original vs rebuilt is sampled over random histories (callbacks by name, '
